@@ -477,7 +477,8 @@ def check_cycle_free(ctx, rule: str) -> None:
                         want = (max(flux, lb), min(0.0, ub))
                         want_pick = ["REV"]
                     b = got.get("bounds")
-                    if b is None or tuple(float(x) for x in b) != tuple(float(x) for x in want) or picked != want_pick:
+                    pick_ok = picked == want_pick or (not boundary and flux == 0 and picked in (["FWD"], ["REV"]))  # fixed at 0: either variable
+                    if b is None or tuple(float(x) for x in b) != tuple(float(x) for x in want) or not pick_ok:
                         problems.append(f"boundary={boundary}, flux={flux}, bounds=({lb},{ub}): new bounds {b}, minimised {picked} (expected {want}, {want_pick})")
     if problems:
         ctx.bad(rule, fn, lp, f"{len(problems)} of {cases} orderings of (flux, lb, 0, ub) are handled wrongly, e.g. {problems[0]}: a reaction may reverse, grow in magnitude, or the wrong variable is minimised")
